@@ -11,6 +11,7 @@ import MechVerif.Driver.C19
 import MechVerif.Driver.C02
 import MechVerif.Driver.C13
 import MechVerif.Driver.C14
+import MechVerif.Driver.C18
 open MechVerif.Driver
 
 def dispatch (line : String) : String :=
@@ -28,6 +29,8 @@ def dispatch (line : String) : String :=
     | some "prec" => runC02 fields obs
     | some "lit" => runC13 fields obs
     | some "set" => S14.runC14 fields obs
+    | some "join" => S18.runC18 fields obs
+    | some "sel" => S18.runC18 fields obs
     | some "conv" | some "reshape" | some "toset" => runC12 fields obs
     | some "crc" | some "dmg" | some "sweep" | some "rt" | some "instrs" => runC07 fields obs
     | _ => ("bad-proto", "bad-proto", "-")
